@@ -117,6 +117,12 @@ def rule_rewind(ck):
         ck.ob("mpt.rewind", f"apply_new_status/Breakpoint-stop#{k}/dominated-by-set_pc", f.dominates(sp.bb, b), "", f.loc(b))
     for k, b in enumerate(eos_aggs):
         ck.ob("mpt.rewind", f"apply_new_status/EndOfScope-stop#{k}/dominated-by-set_pc", f.dominates(sp.bb, b), "", f.loc(b))
+    # the transparent step-off inside the tracer (a thread that ran into a breakpoint that is not the step's own):
+    # the original instruction is re-executed from its first byte, i.e. un-patch and single step come after the rewind
+    redo = [c for c in f.calls() if c.name.endswith("breakpoint::Breakpoint::disable") or c.name == "debugger::debugee::tracer::Tracer::single_step"]
+    ck.floor("mpt.rewind", "un-patch / single-step sites in apply_new_status", len(redo), 2)
+    for key, c in keyed_sites(redo, lambda c: c.name.split("::")[-1]):
+        ck.ob("mpt.rewind", f"apply_new_status/{key}/after-the-rewind", f.dominates(sp.bb, c.bb), "the thread is stepped / the breakpoint un-patched on a path that has not rewound the pc: execution resumes in the middle of the original instruction", f.loc(c.bb), what="a thread that runs into a breakpoint during another thread's step resumes at breakpoint address + 1")
     after = f.after(sp.bb)
     for k, b in enumerate(hw_aggs):
         ck.ob("mpt.rewind", f"apply_new_status/DebugRegister-stop#{k}/not-after-set_pc", b not in after, "hardware data breakpoints report the pc unchanged", f.loc(b))
@@ -188,6 +194,19 @@ def rule_stepoff(ck):
             if err_held:
                 origins = sorted({short(qmark_origin(f, e)) for e in err_held})
                 ck.note(f"C01 pair.stepoff: {short(t)} leaves the patch out on error exits via `?` of {origins} (not an obligation: a failing ptrace step/continue means the tracee is gone or unusable)")
+    # the decision "is the thread sitting on a live breakpoint" is taken on the thread's real program counter:
+    # the exploration context is the frame the user selected, its pc can be a caller's return address
+    sob = ck.anchor("debugger::step::<impl debugger::Debugger>::step_over_breakpoint")
+    look = [c for c in sob.calls() if c.name.endswith("BreakpointRegistry::get_enabled")]
+    if ck.ob("mpt.stepoff", "step_over_breakpoint/one-lookup", len(look) == 1, f"{len(look)} lookups", sob.loc()):
+        e = expr_str(expr_of(sob, look[0].args[1], depth=8), 8)
+        real = "Tracee::pc(" in e or "pc(" in e and "tracee" in e.lower()
+        stale = "location(" in e or "ecx(" in e
+        ck.ob("mpt.stepoff", "step_over_breakpoint/decides-on-the-real-pc", real and not stale, f"looked up at {e[:100]}", sob.loc(look[0].bb), what="after a frame switch `continue` does not step off the breakpoint it stands on: the same arrival is reported again")
+        stepc = [c for c in sob.calls() if c.name == "debugger::debugee::tracer::Tracer::single_step"]
+        if stepc:
+            pe = expr_str(expr_of(sob, stepc[0].args[2], depth=8), 8)
+            ck.ob("mpt.stepoff", "step_over_breakpoint/steps-the-thread-whose-pc-was-read", ".pid" in pe and ("tracee" in pe.lower() or "get_tracee" in pe), f"stepped thread = {pe[:90]}", sob.loc(stepc[0].bb))
     # single step in between for the two stepping sites
     ss = "debugger::debugee::tracer::Tracer::single_step"
     for t in ("debugger::step::<impl debugger::Debugger>::step_over_breakpoint", "debugger::debugee::tracer::Tracer::apply_new_status"):
